@@ -3,6 +3,8 @@
 # given checks (quick) with evidence/replays redirected to /tmp/seedrun/<id>, and always reverts /repo.
 id=$1; shift
 cd /verif
+mkdir -p bin; exec 8>bin/.repo.lock; flock -x 8   # no other ./check may be in its build phase while /repo is patched
+export VERIF_LOCK_HELD=1
 if ! git -C /repo diff --quiet; then echo "/repo has uncommitted changes; refusing" >&2; exit 2; fi
 git -C /repo apply /verif/seeded/$id/patch.diff || { echo "patch does not apply" >&2; exit 2; }
 mkdir -p /tmp/seedrun/$id
